@@ -68,10 +68,11 @@ def run_one(schema: dict, rng, exercise: int) -> dict:
     # generated error path of a required field contains it
     render_cases = []
     ident_cases = []
+    import_cases = []
     contain = {"checked": 0, "missing": []}
     if d and sr.build_error is None:
         import dataclasses
-        from harness import c17_render
+        from harness import c17_render, c17_imports
         from mashumaro.core.meta.helpers import type_name
         alltext = "\n".join(rec["code"] for rec in sr.programs)
         seen_rc = set()
@@ -89,6 +90,10 @@ def run_one(schema: dict, rng, exercise: int) -> dict:
             _ident_case(c)
             for fn, t in c17_render.field_types(c):
                 _ident_case(t)
+                if len(import_cases) < 40:
+                    ic = c17_imports.case(t)
+                    if ic is not None and [ic[0], [list(o) for o in ic[1]]] not in import_cases:
+                        import_cases.append([ic[0], [list(o) for o in ic[1]]])
                 term = c17_render.to_rty(t)
                 if term is None:
                     continue
@@ -128,7 +133,7 @@ def run_one(schema: dict, rng, exercise: int) -> dict:
                         if f"MissingField('{fn}',{exp},cls)" not in code and f"MissingField('{fn}',{c17_run.clean(exp)},cls)" not in code:
                             contain["missing"].append(f"{c.__name__}.{fn}: {exp}")
     out = {"idx": schema["idx"], "module": schema["module"], "tags": schema["tags"], "defloc": schema["defloc"],
-           "render_cases": render_cases, "ident_cases": ident_cases, "render_contain": contain,
+           "render_cases": render_cases, "ident_cases": ident_cases, "import_cases": import_cases, "render_contain": contain,
            "build_error": (type(sr.build_error).__name__ + ": " + str(sr.build_error)[:200]) if sr.build_error else None,
            "findings": fs, "programs": progs, "calls": sr.calls, "errors_seen": sr.errors_seen, "info": sr.info,
            "attr_reads": sorted(set(reads)), "attr_sets": sorted(set(sets)),
